@@ -29,7 +29,8 @@ const char *hx_hex(const uint8_t *p, size_t n);       /* static buffer ring */
 void hx_symtab_load(void);                            /* parent, before the pool is created */
 const char *hx_sym(uintptr_t pc);
 extern int hx_san_last_was_write;                     /* set by hx_emit_san_events: memory may be corrupted */
-int hx_emit_san_events(const char *what);             /* sanitizer reports since the last call -> violations; returns count */
+int hx_emit_san_events(const char *what);
+int hx_leak_check(const char *what);                  /* LSan recoverable check (asan variant only); emits violations */             /* sanitizer reports since the last call -> violations; returns count */
 
 extern volatile _Bool bidib_running, bidib_discard_rx, bidib_seq_num_enabled, bidib_lowlevel_debug_mode;
 #endif
